@@ -82,7 +82,7 @@ func (C11) Generate(r *core.Rand, tier string, idx int) *core.Scenario {
 	}
 	// the disconnect inside a quoted string makes the server spin: the run ends with
 	// the watchdog killing the worker, so it is confined to a known, thin set of runs
-	fatal := idx%251 == 250
+	fatal := idx%251 == 250 && os.Getenv("VERIF_C11_NOFATAL") == ""
 	if fatal {
 		sc.Cfg["eofquote"] = 1
 		sc.Cfg["wd"] = 8
@@ -191,6 +191,12 @@ func (x *c11X) logf(format string, args ...any) {
 			fmt.Fprintf(os.Stderr, format+"\n", args...)
 		}
 	}
+}
+
+// burst: pipelined delivery.  With the knobs that let a line end be swallowed the
+// matcher has to stay in lock step to tell the recorded defects apart.
+func (x *c11X) burst() bool {
+	return x.sc.C("burst") == 1 && !x.kn.openquote && !x.kn.barelf
 }
 
 func (x *c11X) quiesce(phase string) {
@@ -473,6 +479,7 @@ type c11G struct {
 	any        bool // something has been sent
 	firstBad   bool // the first byte sent was not a tag character
 	nLines     int  // lines completed on this connection
+	stepping   bool // the matcher runs in lock step with the delivery
 	credit     int  // burst mode: continuation requests seen ahead of their line
 	bLit       int64
 }
@@ -681,7 +688,7 @@ func (g *c11G) deliver(b []byte) {
 	if g.dead || len(b) == 0 {
 		return
 	}
-	if g.x.sc.C("burst") == 1 {
+	if g.x.burst() {
 		// pipelined: lines are queued for the server without waiting for answers, up
 		// to and including a line that may draw a continuation request (literal
 		// announcement, IDLE): there the burst is flushed and matched, so that inside
@@ -740,6 +747,7 @@ func (g *c11G) flushBurst() {
 // match walks over client bytes and the server's answers together.
 func (g *c11G) match(b []byte, sendNow bool) {
 	e := g.x.e
+	g.stepping = sendNow
 	for len(b) > 0 && !g.dead && !e.Failed() {
 		if g.state == c11Lit {
 			n := int64(len(b))
@@ -973,18 +981,64 @@ func c11Classify(f []byte) c11Item {
 		}
 		return c11Item{kind: 3, tag: tag, status: status, why: "tagged " + status}
 	}
-	// anything else must be untagged data the independent tokenizer accepts
-	var p wire.Parser
-	p.Feed(f)
-	l, err := p.Next()
-	if err != nil || l == nil || l.Tag != "*" {
-		why := "not an untagged data response"
-		if err != nil {
-			why = err.Error()
-		}
+	// anything else must be well-formed untagged data
+	if why := c11DataOK(body); why != "" {
 		return c11Item{kind: 3, why: why, text: c11Show(f)}
 	}
 	return c11Item{kind: 0, tag: "*"}
+}
+
+// c11DataOK checks the lexical shape of an untagged data response: "* " in front,
+// balanced parentheses, closed quoted strings without line breaks, literals of the
+// announced length, no control characters outside literals.
+func c11DataOK(b []byte) string {
+	if len(b) < 3 || b[0] != '*' || b[1] != ' ' || b[2] == ' ' {
+		return "not an untagged response"
+	}
+	depth := 0
+	for i := 2; i < len(b); i++ {
+		switch c := b[i]; {
+		case c == '"':
+			i++
+			for ; i < len(b) && b[i] != '"'; i++ {
+				if b[i] == '\\' {
+					i++
+				}
+				if i < len(b) && (b[i] == '\r' || b[i] == '\n') {
+					return "line break inside a quoted string"
+				}
+			}
+			if i >= len(b) {
+				return "quoted string not closed"
+			}
+		case c == '(':
+			depth++
+		case c == ')':
+			depth--
+			if depth < 0 {
+				return "unbalanced )"
+			}
+		case c == '{':
+			j := i + 1
+			n := 0
+			for j < len(b) && b[j] >= '0' && b[j] <= '9' && j-i < 11 {
+				n = n*10 + int(b[j]-'0')
+				j++
+			}
+			if j > i+1 && j+2 < len(b) && b[j] == '}' && b[j+1] == '\r' && b[j+2] == '\n' {
+				if j+3+n > len(b) {
+					return "literal longer than the response"
+				}
+				i = j + 2 + n
+			}
+		case c == '\r' || c == '\n' || c == 0:
+			return fmt.Sprintf("control character %#x in a data response", c)
+		}
+	}
+	if depth != 0 {
+		return "unbalanced ("
+	}
+	return ""
 }
 
 func (g *c11G) pop() *c11Item {
@@ -1064,7 +1118,7 @@ func (g *c11G) lineEnd() {
 			x.lits++
 			return
 		}
-		if len(g.q) > 0 && g.q[0].kind != 2 && (g.q[0].tag == "*" || g.q[0].tag == "") {
+		if len(g.q) > 0 && g.q[0].kind != 2 && ((g.q[0].kind == 1 && g.q[0].tag == "*") || (g.stepping && g.q[0].tag == "")) {
 			g.pop()
 		}
 		g.lastLogout = g.bye && c11LogoutRe.Match(g.head) && g.lineLen == len(g.head)
@@ -1073,7 +1127,7 @@ func (g *c11G) lineEnd() {
 	}
 	mayCont := c11LitRe.Match(g.tail) || (c11IdleRe.Match(g.head) && g.lineLen == len(g.head))
 	it := g.pop()
-	for it != nil && it.kind == 2 && !mayCont && len(g.pend) == 0 && x.sc.C("burst") == 1 && g.state == c11Line {
+	for it != nil && it.kind == 2 && !mayCont && len(g.pend) == 0 && x.burst() && g.state == c11Line {
 		// burst mode: the command reader works one command ahead of the responses, so
 		// the "+" for the last line of the burst may overtake earlier completions
 		g.credit++
@@ -1096,7 +1150,7 @@ func (g *c11G) lineEnd() {
 	}
 	switch it.kind {
 	case 2:
-		if g.state == c11Idle {
+		if m := c11LitRe.FindSubmatch(g.tail); m == nil && g.state == c11Idle {
 			e.Fail("continuation", "connection %s: continuation request in answer to the line ending IDLE", g.s.Label)
 			return
 		}
